@@ -99,8 +99,15 @@ package generic
 //@ func (*Driver).Close [C07]
 //@   ensures #channel-closed-even-if-on-close-fails implClosed
 
+// gpRead: ghost - what the channel's get-prompt returned
+//@ ghost gpRead []byte local
+//@ ghost gpErr any local
 //@ func (*Driver).GetPrompt
-//@   noverify
+//@   abstract
+//@   at call! GetPrompt#1 assert [C04 C01] #the-prompt-is-asked-of-the-drivers-own-channel recv == d.Channel
+//@   after call GetPrompt#1 set gpRead = result.0
+//@   after call GetPrompt#1 set gpErr = result.1
+//@   at return assert [C04 C01 C06] #the-prompt-the-channel-found-or-its-error-is-returned-unchanged (gpErr == nil ==> result.1 == nil && result.0 == gpRead) && (gpErr != nil ==> result.1 == gpErr)
 //@   requires RI(d.Channel.Q) && d.Channel.PromptSearchDepth >= 0
 //@   ensures RI(d.Channel.Q)
 //@   modifies wire, rd, quiet, alloc(), all(util.Queue.queue), all(util.Queue.depth), chans()
